@@ -21,16 +21,20 @@ MANIFEST = {
             "and compares with the ghost label positions.",
     "note": "Trusted: Lean kernel; Spec/RefSemantics.lean (what a reference field designates) and Spec/Offset.lean; the menu of "
             "instruction shapes (opaque non-field bytes, compared byte for byte); harness/driver/diff. The end-to-end theorems are stated on the model's "
-            "ghost log of fixup records with the Spec/Offset field decoder; the last step to the CPU reading of Spec/RefSemantics "
-            "(end of instruction + disp; opcode-based field location) and references encoded directly against an already bound "
-            "label are judged by the monitor on every explored program, not proved. Buffer growth, set_offset, named "
+            "ghost log of fixup records with the Spec/Offset field decoder; Props/C03B carries them to the monitor's CPU reading "
+            "(judgeRel: end of instruction + sign-extended field on x86, pc + field on AArch64, ADRP pages) - what remains evaluated on "
+            "every explored program rather than proved is the monitor's own bookkeeping (its Ref records name the same field as the "
+            "model's log; opcode-based field location). References encoded directly against an already bound label: Props/C03D says "
+            "what is written (x86 rel8/rel32, [rip+label], AArch64 EmitOp_DispImm), Props/C03S that those bytes are still there at the end "
+            "of every program (direct_field_persists; end to end for x86-64 branches and AArch64: direct_jmp_final, direct_a64_final). Buffer growth, set_offset, named "
             "labels and the Builder path are not modelled. Model follows the repaired code (fixes/C03-1, C03-2).",
 }
-MODS = ["AsmjitVerif.Props.C03", "AsmjitVerif.Props.C03E"]
+MODS = ["AsmjitVerif.Props.C03", "AsmjitVerif.Props.C03E", "AsmjitVerif.Props.C03B", "AsmjitVerif.Props.C03D", "AsmjitVerif.Props.C03S",
+        "AsmjitVerif.Props.C03N"]
 M64 = (1 << 64) - 1
 
 JK = ["jmp", "jz", "call", "jecxz", "loop"]
-MK = ["lea", "mov", "addi8", "movi32", "cmpi16", "ldeax", "steax", "ldrax"]
+MK = ["lea", "mov", "addi8", "movi32", "cmpi16", "ldeax", "steax", "ldrax", "fsmov", "gsldeax", "fsaddi8"]
 AK = ["b", "bl", "bcond", "cbz", "tbz", "adr", "adrp", "ldr"]
 BASES = [0x1000, 0x7FFFF000, 0x80000000, 0xFFFFF000, 1 << 32, (1 << 47) - 4096, 1 << 63, (1 << 64) - 65536]
 
@@ -233,6 +237,99 @@ def gen_programs(rng, tier, c04=False):
     return progs
 
 
+def named_programs(rng, tier):
+    """named (global) labels: creation (fresh / duplicate / empty / too long names), lookup by name (defined, undefined, empty),
+    references through the ids the lookups are expected to give"""
+    progs = []
+    pool = ["main", "loop", "L1", "exit", "a", "data.table", "x" * 40, "@2048", "@2049", "-", "Main", "main2"]
+    for i in range(40 if tier == "quick" else 600):
+        arch = ("x64", "a64", "x86")[i % 3]
+        ops, truth, nl = ["init %s -" % arch], {}, 0
+        for _ in range(rng.choice((4, 10, 20))):
+            k = rng.random()
+            nm = rng.choice(pool)
+            if k < 0.35:
+                ops.append("newnamed %s" % nm)
+                if nm not in ("-", "@2049") and nm not in truth:
+                    truth[nm] = nl
+                    nl += 1
+            elif k < 0.45:
+                ops.append("newlabel")
+                nl += 1
+            elif k < 0.75:
+                ops.append("byname %s" % (nm if nm != "-" or i % 3 == 0 else "exit"))
+            elif nl:
+                l = rng.choice(list(truth.values())) if truth and rng.random() < 0.8 else rng.randrange(nl)
+                ops.append(rng.choice(("bind %d" % l, "a64 b %d 0" % l if arch == "a64" else "jmp jmp d %d" % l, "elabel %d 0" % l, "zeros 7" if arch != "a64" else "zeros 8")))
+        for nm in (("-", "nosuch", "main") if i % 3 == 0 else ("nosuch", "main")):
+            ops.append("byname %s" % nm)
+        progs.append(ops + tail(0x10000))
+    return progs
+
+
+def named_truth_all(ops, answers):
+    """independent bookkeeping of which label every name designates; returns [(class, description)] of the lookups /
+    creations the implementation answers differently"""
+    truth, nl, out = {}, 0, []
+    for op, ans in zip(ops, answers):
+        w = op.split()
+        if w[0] == "newlabel":
+            nl += 1
+        elif w[0] == "newnamed":
+            nm = w[1]
+            want_ok = nm != "-" and not (nm.startswith("@") and int(nm[1:]) > 2048) and nm not in truth
+            if ans.startswith("Ok") != want_ok:
+                out.append(("create", "new_named_label(%s) answered %s, expected %s" % (nm, ans.split()[0], "Ok" if want_ok else "an error")))
+            if ans.startswith("Ok"):
+                if want_ok:
+                    truth[nm] = nl
+                nl += 1
+        elif w[0] == "byname":
+            want = "id=%d" % truth[w[1]] if w[1] in truth else "id=invalid"
+            if ans != want:
+                out.append(("empty-name" if w[1] == "-" else "lookup", "label_by_name(%s) answered %s: the name %s" % (
+                    '""' if w[1] == "-" else w[1], ans,
+                    ("designates label %d" % truth[w[1]]) if w[1] in truth else "was never defined (expected the invalid id)")))
+    return out
+
+
+def named_truth(ops, answers, cls=None):
+    for c, why in named_truth_all(ops, answers):
+        if cls is None or c == cls:
+            return why
+    return None
+
+
+def check_named(res, h, progs):
+    """returns the programs on which a lookup / creation is answered differently from the independent bookkeeping (a
+    correspondence difference on the same program is explained by that violation); one violation per class"""
+    explained, first = set(), {}
+    for p in sorted(progs, key=len):
+        a, rc, err = vlib.run_lines([str(h)], p)
+        if rc != 0 or len(a) != len(p):
+            continue                         # aborts / protocol failures are reported by check_programs
+        found = named_truth_all(p, a)
+        if found:
+            explained.add(tuple(p))
+            for c, why in found:
+                first.setdefault(c, (p, why))
+    for c, (p, why) in sorted(first.items()):
+        body = list(range(len(p) - 5))
+
+        def fails(sel):
+            q = p[:1] + [p[1 + i] for i in sel] + p[-4:]
+            o, rc1, _ = vlib.run_lines([str(h)], q)
+            return rc1 == 0 and len(o) == len(q) and named_truth(q, o, c) is not None
+        sel = vlib.ddmin(body, fails, max_tests=150) if fails(body) else body
+        q = p[:1] + [p[1 + i] for i in sel] + p[-4:]
+        o, _, _ = vlib.run_lines([str(h)], q)
+        res.violation("a label name does not designate the label it was defined for: %s (%d-op program)"
+                      % (named_truth(q, o, c) or why, len(q)),
+                      {"ops": q, "impl": o, "how": "python3 tools/check.py replay <this file>"}, True, key="named-lookup:" + c)
+    res.coverage["named_label_programs"] = len(progs)
+    return explained
+
+
 # ----------------------------------------------------------------------------------------------
 # running
 # ----------------------------------------------------------------------------------------------
@@ -245,12 +342,45 @@ def split(progs, lines):
     return out if i == len(lines) else None
 
 
+def image_dump(dump, image):
+    """the dump line with every section's bytes replaced by the bytes found in the JIT image at the section's offset"""
+    w = dump.split()
+    i = 0
+    while i < len(w):
+        if w[i] == "S" and i + 3 < len(w):
+            off, b = int(w[i + 1], 16), w[i + 3]
+            if b != "-":
+                n = len(b) // 2
+                w[i + 3] = image[2 * off:2 * (off + n)].ljust(2 * n, "f")   # bytes missing from the image can never decode correctly
+            i += 4
+        else:
+            i += 1
+    return " ".join(w)
+
+
 def monitor_lines(prog, answers):
     w = prog[0].split()
     ml = ["moninit %s %s" % (w[1], w[2])]
+    image, dumped = None, False
     for op, ans in zip(prog[1:], answers[1:]):
         if op == "dump":
-            ml.append("mon" + ans)        # "dump ..." -> "mondump ..."
+            if dumped:
+                continue                  # one verdict per program: the first dump
+            dumped = True
+            ml.append("mon" + (image_dump(ans, image) if image is not None else ans))        # "dump ..." -> "mondump ..."
+        elif op.startswith("jitadd"):
+            # JitRuntime::add = flatten + resolve + relocate_to_base(rx) + copy: the monitor judges the bytes at rx
+            a = ans.split()
+            if a[0] == "Ok" and len(a) >= 6:
+                image = "" if a[5] == "-" else a[5]
+                ml.append("mon Ok %s %s | relocate %s" % (a[1], a[2], a[3]))
+            else:
+                ml.append("mon InvalidState %s %s | relocate 0" % (a[1], a[2]))
+        elif op == "jitrelease" or op.startswith("byname"):
+            continue
+        elif op.startswith("newnamed"):
+            if ans.startswith("Ok"):                  # a named label is an ordinary label for the ghost
+                ml.append("mon %s | newlabel" % " ".join(ans.split()[:3]))
         else:
             ml.append("mon %s | %s" % (" ".join(ans.split()[:3]), op))
     return ml
@@ -294,7 +424,7 @@ def shrink(h, prog, pred):
     return head + build(vlib.ddmin(idx, fails, max_tests=250)) + tl
 
 
-def check_programs(res, pid, h, progs, broken):
+def check_programs(res, pid, h, progs, broken, explained=()):
     if broken:
         # a proof obligation that no longer checks is always reported, whatever else is found
         res.violation("proof obligation no longer checks: " + " | ".join(broken)[:1500], {"unchecked": broken}, False, key="obligation")
@@ -373,7 +503,7 @@ def check_programs(res, pid, h, progs, broken):
                       {"ops": progs[i], "model": ma[i], "unchecked": "Props/%s theorems vs Spec/RefSemantics.judge" % pid}, False, key="obligation-model")
     # a correspondence difference is reported unless the monitor already explains that very program (a violation found
     # on the same program); differences on other programs are never hidden by unrelated violations
-    diffs_only = [i for i in diffs if i not in badset]
+    diffs_only = [i for i in diffs if i not in badset and tuple(progs[i]) not in explained]
     if diffs_only:
         i = min(diffs_only, key=lambda j: len(progs[j]))
         p = progs[i]
@@ -454,8 +584,10 @@ def run(res):
     h, broken = prepare(res, PID, MODS)
     if h is None:
         return
-    progs = boundary_programs(rng, res.tier) + gen_programs(rng, res.tier)
-    check_programs(res, PID, h, progs, broken)
+    named = named_programs(rng, res.tier)
+    progs = boundary_programs(rng, res.tier) + gen_programs(rng, res.tier) + named
+    explained = check_named(res, h, named)
+    check_programs(res, PID, h, progs, broken, explained)
     big_section_witness(res, res.tier)
 
 
@@ -484,4 +616,7 @@ def replay(data):
         return 1
     v = judge([ops], [impl]) if len(impl) == len(ops) else None
     print("monitor:", v[0] if v else "?")
-    return 0 if v and v[0] == "good" else 1
+    why = named_truth(ops, impl)
+    if why:
+        print("named labels:", why)
+    return 0 if v and v[0] == "good" and not why else 1
